@@ -9,6 +9,7 @@ import (
 	"context"
 	"fmt"
 	"strings"
+	"time"
 
 	"github.com/jig/lisp"
 	. "github.com/jig/lisp/types"
@@ -41,6 +42,16 @@ var eqSharing = []struct {
 	{"(let [l (list 1 2 3)] (= l (rest l)))", "F"}, {"(let [v [1 2 3]] (= {:k v} {:k (subvec v 0 2)}))", "F"},
 	{"(let [v [1 2 3]] (= [v] [(subvec v 0 2)]))", "F"}, {"(let [v [1 1 1]] (= (subvec v 0 2) (subvec v 1 3)))", "T"},
 	{"(let [v [1 2 3]] (= (take 2 v) (subvec v 0 2)))", "T"}, {"(let [v [1 2 3] w (conj v 4)] (= v (subvec w 0 3)))", "T"},
+	// one comparison that meets the SAME pair of stores twice, first at full length, then as a shorter view (and the other
+	// way round): what was found for one pair of views says nothing about another pair
+	{"(let [x [1 2 3] p (subvec x 0 2)] (= [x p] [x x]))", "F"}, {"(let [x [1 2 3] p (subvec x 0 2)] (= [x x] [x p]))", "F"},
+	{"(let [x [1 2 3] p (subvec x 0 2)] (= (list x p) [x x]))", "F"}, {"(let [x [1 2 3] p (subvec x 0 2)] (= {:a x :b [x p]} {:a x :b [x x]}))", "F"},
+	{"(let [x [1 2 3]] (= [x (subvec x 0 0)] [x x]))", "F"}, {"(let [x [1 2 3]] (= [x x] [x x]))", "T"}, {"(let [x [1 2 3] p (subvec x 0 2)] (= [p x] [x x]))", "F"},
+	{"(let [x [1 2 3] p (subvec x 0 2)] (= [x p x] [x x x]))", "F"}, {"(let [x [1 2 3] p (subvec x 0 2)] (= [x p] [x p]))", "T"},
+	{"(let [l (list 1 2 3) t (rest l)] (= [l t] [l l]))", "F"}, {"(let [x [[1] [2]]] (= [x (subvec x 0 1)] [x x]))", "F"},
+	{"(let [x [1 2 3] p (subvec x 0 2)] [(= [x x] [x x]) (= [x p] [x x]) (= p x)])", "( V T F F )"},
+	{"(let [m {:a 1} n (assoc m :b 2)] (= [m n] [m m]))", "F"}, {"(let [m {:a [1 2]}] (= [m (dissoc m :a)] [m m]))", "F"},
+	{"(let [x [1 2 3] w (conj x 4)] (= [x (subvec w 0 3) w] [x x x]))", "F"}, {"(let [x [1 2 3] w (conj x 4)] (= [x (subvec w 0 3)] [x x]))", "T"},
 	{"(let [m {:a nil :b 1}] (= m (assoc m :b 2)))", "F"}, {"(= {:a nil :b 1} {:a nil :b 2})", "F"}, {"(= {:a nil :b 1 :c 2} {:a nil :b 1 :c 3})", "F"},
 }
 
@@ -55,6 +66,70 @@ func (e *eqExprEngine) generate(r *rng, n int, tier string, emit func(string)) {
 			emit(fmt.Sprintf("%d %d", i, j))
 		}
 	}
+	for k := range eqBig {
+		for ms := 0; ms < 10; ms++ {
+			emit(fmt.Sprintf("deadline %d %d", k, ms))
+		}
+	}
+}
+
+// comparisons of BIG equal values while the evaluation's deadline runs out: the answer is `true` or the evaluation's
+// timeout error — "equal exactly when they have the same keys with equal values" has no third outcome
+const eqBigDefs = `(do
+ (def bv1 (vec (range 0 150000))) (def bv2 (vec (range 0 150000)))
+ (def bm1 {:a bv1 :b {:c bv2 :d [bv1 bv2]}}) (def bm2 {:a bv2 :b {:c bv1 :d [bv2 bv1]}})
+ (def bl1 (map (fn [i] {:i i :v [i i]}) (range 0 20000))) (def bl2 (map (fn [i] {:i i :v [i i]}) (range 0 20000)))
+ nil)`
+
+var eqBig = []string{
+	"(= bm1 bm2)", "(= bm1 bm1)", "(= bv1 bv2)", "(= bl1 bl2)", "(= {:k bl1} {:k bl2})", "(= [bm1 bl1] [bm2 bl2])",
+	"(try (= bm1 bm2) (catch e :timeout))", "(if (= bm2 bm1) :same :different)", "(= (list bm1 bm2) (list bm2 bm1))",
+}
+
+var eqBigEnv EnvType
+
+func (e *eqExprEngine) runDeadline(k, ms int) string {
+	if eqBigEnv == nil {
+		ec := &evalCase{}
+		env, err := freshEnv(ec)
+		if err != nil {
+			return "setup-error"
+		}
+		defs, err := lisp.READ(eqBigDefs, nil, env)
+		if err != nil {
+			return "setup-error"
+		}
+		if _, err := lisp.EVAL(context.Background(), defs, env); err != nil {
+			return "setup-error"
+		}
+		eqBigEnv = env
+	}
+	ast, err := lisp.READ(eqBig[k], nil, eqBigEnv)
+	if err != nil {
+		return "bad-case"
+	}
+	// how long the comparison takes on this machine, then deadlines spread over that time
+	t0 := time.Now()
+	if _, err := lisp.EVAL(context.Background(), ast, eqBigEnv); err != nil {
+		return "setup-error"
+	}
+	full := time.Since(t0)
+	for trial := 0; trial < 6; trial++ {
+		d := full * time.Duration(1+((ms*6+trial)*7)%59) / 60
+		ctx, cancel := context.WithTimeout(context.Background(), d)
+		v, err := lisp.EVAL(ctx, ast, eqBigEnv)
+		cancel()
+		got := "err"
+		if err == nil {
+			got = render(v)
+		}
+		switch got {
+		case "T", "err", "K:same", "K:timeout":
+		default:
+			return fmt.Sprintf("T\t!%s on structurally equal values under a deadline of %v (the comparison takes %v) ⇒ %s (neither true nor the timeout error)", eqBig[k], d, full, got)
+		}
+	}
+	return "T"
 }
 
 func (e *eqExprEngine) run(payload string) string {
@@ -81,6 +156,13 @@ func (e *eqExprEngine) run(payload string) string {
 			return eqSharing[k].want + "\t!" + eqSharing[k].src + " ⇒ " + got + " (structurally " + eqSharing[k].want + ")"
 		}
 		return eqSharing[k].want
+	}
+	if strings.HasPrefix(payload, "deadline ") {
+		var k, ms int
+		if _, err := fmt.Sscanf(payload, "deadline %d %d", &k, &ms); err != nil || k < 0 || k >= len(eqBig) {
+			return "bad-case"
+		}
+		return e.runDeadline(k, ms)
 	}
 	var i, j int
 	if _, err := fmt.Sscanf(payload, "%d %d", &i, &j); err != nil || i < 0 || j < 0 || i >= len(eqExprs) || j >= len(eqExprs) {
